@@ -253,10 +253,14 @@ def gen_scenario(rng):
         if sc[0] == 'ok':
             sc = (sc[0], sc[1], rng.choice([0.3, 3.3, 47.9]))
         scripts.append(sc)
-    scripts.append(('ok', 'stay'))
     bind_mode = rng.choice(['TRANSCEIVER', 'TRANSMITTER', 'RECEIVER'])
     min_delay = rng.choice([1, 250, 1000, 3000])
-    max_inc = rng.choice([0, 1, 3, 5])
+    max_inc = rng.choice([0, 1, 3, 4, 5, 7])
+    if rng.random() < 0.25:
+        # a long streak of failed cycles: the delay must keep doubling up to min * 2^max_increases and stay there
+        scripts = [rng.choice([('refuse',), ('bind_error', 13), ('eof_at_bind',), ('os_error',), ('wrong_resp',)]) for _ in range(max_inc + rng.choice([2, 3, 4]))]
+        min_delay = rng.choice([1, 20, 250])
+    scripts.append(('ok', 'stay'))
     return scripts, bind_mode, min_delay, max_inc
 
 
@@ -272,7 +276,7 @@ def run(ctx):
                        'hooks and broker return promptly']
     proved = ctx.prove('C07', THEOREMS)
     rng = ctx.rng
-    n = 500 if ctx.thorough else 90
+    n = 3000 if ctx.thorough else 90
     cases = []
     for i in range(n):
         scripts, bind_mode, min_delay, max_inc = gen_scenario(rng)
